@@ -1,79 +1,82 @@
-(* C15: every call preserves WF (outside the recorded call shapes), hence every reachable state is
-   well formed; a rejected single-element call leaves the state unchanged. *)
+(* C15: every call preserves WF together with the representation invariant of the private state
+   (Model/HeapRep.v), hence every reachable state is well formed. *)
 From Coq Require Import List Arith Bool Lia.
-From TT Require Import Base.HeapTypes Model.Heap Model.HeapTriggers Spec.ModelWF
+From TT Require Import Base.HeapTypes Model.Heap Model.HeapRep Spec.ModelWF
   Proofs.C15.HeapLemmas Proofs.C15.Links Proofs.C15.Tree Proofs.C15.Frames Proofs.C15.LinkOps Proofs.C15.Values
-  Proofs.C15.Dfs Proofs.C15.AttrCalls Proofs.C15.LinkCalls Proofs.C15.SetDoc Proofs.C15.SetDocTree Proofs.C15.Content.
+  Proofs.C15.Dfs Proofs.C15.Users Proofs.C15.AttrCalls Proofs.C15.LinkCalls Proofs.C15.SetDoc Proofs.C15.Content.
 Import ListNotations.
 
 Lemma ltb_lt' a b : (a <? b) = true -> a < b. Proof. apply Nat.ltb_lt. Qed.
 
-Theorem step_WF h c : WF h -> trigger h c = None -> WF (fst (step h c)).
+Definition Inv (h : heap) : Prop := WF h /\ Rep h.
+
+Theorem exec_Inv h c : Inv h -> call_ok h c = true -> Inv (heap_of (exec h c)).
 Proof.
-  intros HW T. unfold step. destruct (call_ok h c) eqn:OK; [|exact HW]. cbn [fst].
-  unfold trigger in T. rewrite OK in T. cbn [negb] in T.
+  intros [HW HR] OK.
   destruct c; cbn [exec call_ok] in *; unfold node_ok, doc_ok in OK;
     repeat match goal with H : _ && _ = true |- _ => apply andb_true_iff in H; destruct H end;
     repeat match goal with H : (_ <? _) = true |- _ => apply ltb_lt' in H end.
-  - (* push_child *) apply push_child_WF; auto. destruct (t_rtc_lone_rp h s c); [discriminate|reflexivity].
-  - (* push_children *)
-    apply push_children_WF; auto.
-    + intros x Hx. rewrite forallb_forall in H0. apply ltb_lt'. apply (H0 x Hx).
-    + destruct (t_rtc_push_children_appends h s cs); [discriminate|reflexivity].
-    + destruct (t_rtc_push_children_appends h s cs); [discriminate|]. destruct (t_push_children_half h s cs); [discriminate|reflexivity].
-  - apply remove_WF; auto.
-  - apply remove_child_WF; auto.
-  - apply remove_children_WF; auto.
-  - (* set_doc *)
-    destruct d as [d|].
-    + apply set_doc_some_WF; auto.
-      * simpl in H0. apply ltb_lt'. exact H0.
-      * destruct (t_set_doc_on_child h s); [discriminate|reflexivity].
-    + apply set_doc_none_WF; auto. destruct (t_set_doc_none_children h s); [discriminate|reflexivity].
-  - (* set_region *)
-    apply set_region_WF; auto. intros rr ->. destruct (t_set_region_by_id h s rr); [discriminate|reflexivity].
-  - apply put_region_WF; auto. destruct (t_put_region_replace h d r); [discriminate|reflexivity].
-  - apply remove_region_WF; auto. destruct (t_remove_region_outside_body h d id); [discriminate|reflexivity].
-  - apply set_body_WF; auto.
-  - apply set_style_WF; auto.
-  - apply add_anim_WF; auto.
-  - exact HW.
-  - apply put_initial_WF; auto.
-  - apply copy_to_WF; auto.
-  - apply set_begin_WF; auto.
-  - apply set_end_WF; auto.
-  - apply set_id_WF; auto.
-  - apply set_lang_WF; auto.
-  - apply set_space_WF; auto.
+  - split; [apply push_child_WF; auto|apply push_child_Rep; auto].
+  - assert (Hcs : forall x, In x cs -> x < nnodes h).
+    { intros x Hx. rewrite forallb_forall in H0. apply ltb_lt'. apply (H0 x Hx). }
+    destruct (push_children_WF h s cs HW H Hcs) as [A B]. split; auto.
+  - split; [apply remove_WF; auto|apply remove_Rep; auto].
+  - split; [apply remove_child_WF; auto|apply remove_child_Rep; auto].
+  - split; [apply remove_children_WF; auto|apply remove_children_Rep; auto].
+  - destruct d as [d|].
+    + apply set_doc_some_WF; auto. simpl in H0. apply ltb_lt'. exact H0.
+    + apply set_doc_none_WF; auto.
+  - split; [apply set_region_WF; auto|apply set_region_Rep; auto].
+  - destruct (put_region_Inv h d r HW HR) as (A & B & _); auto. split; assumption.
+  - destruct (remove_region_Inv h d id HW HR) as (A & B & _); auto. split; assumption.
+  - split; [apply set_body_WF; auto|apply set_body_Rep; auto].
+  - split; [apply set_style_WF; auto|apply set_style_Rep; auto].
+  - split; [apply add_anim_WF; auto|apply add_anim_Rep; auto].
+  - split; assumption.
+  - split; [apply put_initial_WF; auto|apply put_initial_Rep; auto].
+  - apply copy_to_Inv; auto.
+  - split; [apply set_begin_WF; auto|apply set_begin_Rep; auto].
+  - split; [apply set_end_WF; auto|apply set_end_Rep; auto].
+  - split; [apply set_id_WF; auto|apply set_id_Rep; auto].
+  - split; [apply set_lang_WF; auto|apply set_lang_Rep; auto].
+  - split; [apply set_space_WF; auto|apply set_space_Rep; auto].
+  - split; [apply remove_anim_WF; auto|apply remove_anim_Rep; auto].
+  - split; [apply remove_initial_WF; auto|apply remove_initial_Rep; auto].
+  - split; [apply set_text_WF; auto|apply set_text_Rep; auto].
+  - split; [apply set_active_WF; auto|apply set_active_Rep; auto].
+  - split; [apply set_cell_WF; auto|apply set_cell_Rep; auto].
+  - split; [apply set_px_WF; auto|apply set_px_Rep; auto].
+  - split; [apply set_dar_WF; auto|apply set_dar_Rep; auto].
+  - split; [apply set_dlang_WF; auto|apply set_dlang_Rep; auto].
+  - apply doc_copy_to_Inv; auto.
+  - destruct (ask h q); split; assumption.
 Qed.
 
-(* histories none of whose calls is an instance of a recorded finding *)
-Fixpoint admissible (h : heap) (cs : list call) : bool :=
-  match cs with
-  | [] => true
-  | c :: t => match trigger h c with
-              | Some _ => false
-              | None => admissible (fst (step h c)) t
-              end
-  end.
-
-Theorem run_WF : forall cs h, WF h -> admissible h cs = true -> WF (run h cs).
+Theorem step_Inv h c : Inv h -> Inv (fst (step h c)).
 Proof.
-  induction cs as [|c t IH]; intros h HW A; [exact HW|].
-  simpl in A. destruct (trigger h c) eqn:T; [discriminate|].
-  unfold run. simpl. apply IH; [apply step_WF; assumption|exact A].
+  intro HI. unfold step. destruct (call_ok h c) eqn:OK; [|exact HI]. cbn [fst]. apply exec_Inv; assumption.
+Qed.
+Theorem step_WF h c : WF h -> Rep h -> WF (fst (step h c)).
+Proof. intros HW HR. apply (step_Inv h c (conj HW HR)). Qed.
+
+Theorem run_Inv : forall cs h, Inv h -> Inv (run h cs).
+Proof.
+  induction cs as [|c t IH]; intros h HI; [exact HI|].
+  unfold run. simpl. apply IH. apply step_Inv. exact HI.
 Qed.
 
 (* ---- the initial universe is well formed ---- *)
+(* the owner documents exist and every Region was given an id (Region.__init__ refuses None) *)
 Definition elems_ok (elems : list (kind * option nat * option nat)) (ndoc : nat) : bool :=
-  forallb (fun x => match snd (fst x) with None => true | Some d => d <? ndoc end) elems.
+  forallb (fun x => match snd (fst x) with None => true | Some d => d <? ndoc end) elems &&
+  forallb (fun x => negb (kind_eqb (fst (fst x)) KRegion) || is_some (snd x)) elems.
 
 Lemma nth_repeat_ddoc n d : nth d (repeat ddoc n) ddoc = ddoc.
 Proof. revert d; induction n as [|n IH]; intros [|d]; simpl; auto. Qed.
 
 Theorem init_WF elems ndoc : elems_ok elems ndoc = true -> WF (init elems ndoc).
 Proof.
-  intro OK. set (h := init elems ndoc).
+  intro OK. apply andb_true_iff in OK. destruct OK as [OK _]. set (h := init elems ndoc).
   assert (ND : forall i, nd h i = fresh (nth i elems (KText, None, None))).
   { intro i. unfold nd, h, init. simpl. change dnode with (fresh (KText, None, None)). apply map_nth. }
   assert (DC : forall d, dc h d = ddoc) by (intro d; unfold dc, h, init; simpl; apply nth_repeat_ddoc).
@@ -91,7 +94,7 @@ Proof.
   - split.
     + intros i Hi. rewrite ND. destruct (FR (nth i elems (KText, None, None))) as (F1 & F2 & F3 & F4 & F5 & F6 & _ & _ & F9).
       rewrite F1, F2, F3, F4, F5, F6, F9. simpl. repeat split; auto.
-      unfold dref_ok. rewrite NDc. rewrite NN in Hi. unfold elems_ok in OK. rewrite forallb_forall in OK.
+      unfold dref_ok. rewrite NDc. rewrite NN in Hi. rewrite forallb_forall in OK.
       specialize (OK (nth i elems (KText, None, None)) (nth_In _ _ Hi)).
       destruct (snd (fst (nth i elems (KText, None, None)))); [apply ltb_lt'; exact OK|exact I].
     + intros d Hd. rewrite DC. simpl. split; [exact I|intros id r []].
@@ -110,6 +113,24 @@ Proof.
     + intros d _. rewrite DC. intros p v [].
 Qed.
 
-Theorem reachable_WF elems ndoc cs :
-  elems_ok elems ndoc = true -> admissible (init elems ndoc) cs = true -> WF (run (init elems ndoc) cs).
-Proof. intros OK A. apply run_WF; [apply init_WF; exact OK|exact A]. Qed.
+Theorem init_Rep elems ndoc : elems_ok elems ndoc = true -> Rep (init elems ndoc).
+Proof.
+  intro OK. apply andb_true_iff in OK. destruct OK as [_ OK]. set (h := init elems ndoc).
+  assert (ND : forall i, nd h i = fresh (nth i elems (KText, None, None))).
+  { intro i. unfold nd, h, init. simpl. change dnode with (fresh (KText, None, None)). apply map_nth. }
+  assert (NN : nnodes h = length elems) by (unfold nnodes, h, init; simpl; apply map_length).
+  split.
+  - intros r i Hr. rewrite !ND. destruct (nth r elems (KText, None, None)) as [[k d] j], (nth i elems (KText, None, None)) as [[k' d'] j'].
+    simpl. split; [intros []|intros [_ [=]]].
+  - intros i Hi. rewrite ND. rewrite NN in Hi. rewrite forallb_forall in OK.
+    specialize (OK (nth i elems (KText, None, None)) (nth_In _ _ Hi)).
+    destruct (nth i elems (KText, None, None)) as [[k d] j]. simpl in *. intros ->. rewrite kind_eqb_refl in OK. simpl in OK.
+    destruct j; [discriminate|discriminate OK].
+Qed.
+Theorem init_Inv elems ndoc : elems_ok elems ndoc = true -> Inv (init elems ndoc).
+Proof. intro OK. split; [apply init_WF|apply init_Rep]; exact OK. Qed.
+
+Theorem reachable_Inv elems ndoc cs : elems_ok elems ndoc = true -> Inv (run (init elems ndoc) cs).
+Proof. intro OK. apply run_Inv. apply init_Inv. exact OK. Qed.
+Theorem reachable_WF elems ndoc cs : elems_ok elems ndoc = true -> WF (run (init elems ndoc) cs).
+Proof. intro OK. apply (reachable_Inv elems ndoc cs OK). Qed.
